@@ -37,7 +37,12 @@ PLAN = {
         item("h_stream", "ans_msg", 1_600_000, 32_000_000, param=12, max_len=(1024, 16384)),
         item("h_stream", "range_msg", 1_600_000, 32_000_000, param=12, max_len=(1024, 16384)),
     ],
+    "C13": [item("h_chain", "c13_chain", 2_400_000, 64_000_000, max_len=(1024, 8192))],
+    "C14": [item("h_chain", "c14_chain", 2_400_000, 64_000_000, max_len=(1024, 8192))],
 }
+
+CHAIN_GRID = ("chain-coder grid (Word/State: precisions, switchable by change_precision): u8/u16: 8,3,1; u8/u32: 8,5,1; u8/u64: 8,4; "
+              "u16/u32: 16,12,7; u16/u64: 16,8,11; u32/u64: 32,24,12,8; u32/u128: 32,9; u64/u128: 24,2; harness table models")
 
 GRID = ("configuration grid (Word/State: precisions): u8/u16: 1,3,8; u8/u32: 1,5,8; u8/u64: 8,4; u16/u32: 7,12,16; "
         "u16/u64: 8,16,11; u32/u64: 8,12,16,24,32; u32/u128: 32,9; u64/u128: 24,2; models are harness cumulative "
@@ -80,6 +85,16 @@ RULES = {
     "C12": "case = (config row, message of <=80 / <=2000 symbols), bound W*num_words <= sum(I_i + log2(1+2^-(S-W-P_i))) + S + 2W "
            "and num_words <= n + S/W + 2 checked at every prefix for both coders (float slack 1e-9*n + 1e-6 bits); " + GRID +
            "; non-trivial = >=1 flushed word / renormalisation",
+    "C13": "case = (config row, from_binary | from_compressed (last word forced non-zero), word data 0..24(+S/W) words (quick) / 0..200 "
+           "(thorough), script of <=40 / <=400 steps from {decode(model), change_precision(P')}, decoding past the end of the data "
+           "continues with the symbols obtained, one of the three documented re-import ways {same coder; into_remainders -> prefix++suffix "
+           "-> from_remainders; suffix only, prefix kept apart}, re-encode in reverse with precision changes undone, optional extra "
+           "encode (must give OutOfRemainders or be undone by a decode), into_binary | into_compressed); " + CHAIN_GRID +
+           "; non-trivial = >=2 symbols decoded and re-encoded",
+    "C14": "case = (config row, constructor, word data, up to 40 / 400 models, position j + replacement model, position j + bit mask); "
+           "oracle 1: symbol i == model_i(chunk_i) with chunk_i and the out-of-data index from an independent bit-stack model of the "
+           "chunking; oracle 2: replacing model j / flipping the mask inside chunk j (bit provenance from the chunk model) changes at most "
+           "symbol j and never the out-of-data index; " + CHAIN_GRID + "; non-trivial = >=2 symbols decoded",
 }
 
 LEVEL_TEXT = {
@@ -91,6 +106,8 @@ LEVEL_TEXT = {
     "C08": "metamorphic property-based search: inspected coder vs untouched twin, and every view vs the export of a clone",
     "C11": "property-based search with a state-steered generator over sealed messages followed by adversarial suffixes",
     "C12": "property-based search checking the analytic size bound at every prefix of generated messages",
+    "C13": "stateful property-based decode/re-encode round-trip search over chain-coder scripts with precision changes and all three re-import ways",
+    "C14": "differential (independent chunk model) and metamorphic (model replacement, bit flips) property-based search",
 }
 
 TECHNIQUE = {
@@ -102,4 +119,6 @@ TECHNIQUE = {
     "C08": "metamorphic property-based testing (inspected vs uninspected twin histories)",
     "C11": "property-based testing with state-feedback (steered) generation; oracle = decode(sealed ++ suffix) == message",
     "C12": "property-based testing of an analytic invariant over every prefix of generated messages",
+    "C13": "stateful property-based round-trip testing (decode script -> export/re-import -> reverse re-encode)",
+    "C14": "differential + metamorphic property-based testing against an independent chunk model",
 }
